@@ -634,7 +634,7 @@ def decimal_places(digits: int, value: Any) -> Decimal:
     :param value: a numeric value.
     :return: a :py:class:`Decimal` value, quantized to the requested number of decimal places.
     """
-    digits_right = Decimal(f"0.{(digits-1)*'0'}1")
+    digits_right = Decimal((0, (1,), -digits))
     return Decimal(value).quantize(digits_right)
 
 
